@@ -118,7 +118,7 @@ def rule_r2(ctx):
                   how="loop test, initialisation, single unconditional advance as last statement")
 
 
-def rule_r3(ctx):
+def rule_r3(ctx, rule="R3"):
     repo = ctx.repo
     dl = repo.cls(f"{LL}:DoublyLinkedSet")
     for f in dl.methods.values():
@@ -148,7 +148,7 @@ def rule_r3(ctx):
                 kinds = {m.kind for m in mw}
                 ok = ok and ((inc and kinds == {"substore"}) or (not inc and kinds <= {"subdel", "mutcall"}))
                 ok = ok and isinstance(a.stmt, ast.AugAssign) and norm(a.stmt.value) == "1"
-        ctx.check("R3", f"{f.local}: _length and _value_ids_to_boxes change together", ok, f, f.node,
+        ctx.check(rule, f"{f.local}: _length and _value_ids_to_boxes change together", ok, f, f.node,
                   "length and id→box map are not updated on the same paths / in the same direction: len(), indexing "
                   "and membership stop describing the sequence",
                   how="paired CFG path coverage of the two write sets; ±1 matches store/delete")
@@ -170,7 +170,7 @@ def rule_r3(ctx):
                         ok = True
                     stack.append(dl.methods[c.func.attr])
         direct = [w for w in field_writes(f) if w.field in ("next", "prev", "_length", "_value_ids_to_boxes")]
-        ctx.check("R3", f"{name} inserts only through _insert_one_after", ok and not direct, f, f.node,
+        ctx.check(rule, f"{name} inserts only through _insert_one_after", ok and not direct, f, f.node,
                   "insertion entry point links boxes itself instead of going through _insert_one_after",
                   how="intra-class call graph reachability; no direct link writes")
     # inside the primitive
@@ -187,12 +187,12 @@ def rule_r3(ctx):
             ok = all(cfg.dominates(tn, cfg.node_of(w.stmt)[0]) for w in stores + links)
         else:
             ok = False
-    ctx.check("R3", "_insert_one_after: present value is removed before the new box is linked and mapped", ok, ins, ins.node,
+    ctx.check(rule, "_insert_one_after: present value is removed before the new box is linked and mapped", ok, ins, ins.node,
               "a value already in the list is linked a second time without erasing its old box (duplicate yield / stale map entry)",
               how="`if id in map: self.remove(value)` test dominates every link and map write")
     guards = [norm(n.test) for n in own_nodes(ins.node) if isinstance(n, ast.If) and any(isinstance(s, (ast.Raise, ast.Return)) for s in n.body)]
     ok = any("owning_list is not self" in g for g in guards) and any("new_value is None" in g for g in guards) and any("box.value is new_value" in g for g in guards)
-    ctx.check("R3", "_insert_one_after: rejects None, foreign anchor boxes and self-insertion before linking", ok, ins, ins.node,
+    ctx.check(rule, "_insert_one_after: rejects None, foreign anchor boxes and self-insertion before linking", ok, ins, ins.node,
               "one of the entry guards of the insertion primitive is missing", how="guard texts", nontrivial=False)
     # new box: prev/next wiring complete.  Roles are taken from the code: the anchor is the box parameter, the new box
     # is the local bound to the _LinkBox constructor, the old successor the local bound to <anchor>.next
@@ -201,15 +201,34 @@ def rule_r3(ctx):
             and isinstance(n.value, ast.Call) and (dotted_of(n.value.func) or "").endswith("_LinkBox")]
     on = [n for n in own_nodes(ins.node) if isinstance(n, ast.Assign) and isinstance(n.targets[0], ast.Name) and norm(n.value) == f"{anchor}.next"]
     ok = len(newb) == 1 and len(on) == 1
-    w4 = {(norm(w.recv), w.field, norm(w.stmt.value)) for w in field_writes(ins) if w.field in ("next", "prev") and w.kind == "store"}
+    w4 = set()
+    for a in own_nodes(ins.node):
+        if not isinstance(a, ast.Assign):
+            continue
+        for t in a.targets:
+            pairs = list(zip(t.elts, a.value.elts)) if isinstance(t, ast.Tuple) and isinstance(a.value, ast.Tuple) and len(t.elts) == len(a.value.elts) else [(t, a.value)]
+            for tt, vv in pairs:
+                if isinstance(tt, ast.Attribute) and tt.attr in ("next", "prev"):
+                    w4.add((norm(tt.value), tt.attr, norm(vv)))
     if ok:
         nb, succ = newb[0], on[0].targets[0].id
         ok = w4 == {(anchor, "next", nb), (nb, "prev", anchor), (nb, "next", succ), (succ, "prev", nb)}
     if ok:
         ok = cfg.dominates(cfg.node_of(on[0])[0], cfg.node_of([w for w in field_writes(ins) if norm(w.recv) == anchor and w.field == "next"][0].stmt)[0])
-    ctx.check("R3", "_insert_one_after: four link writes splice the new box between box and its old successor", ok, ins, ins.node,
+    ctx.check(rule, "_insert_one_after: four link writes splice the new box between box and its old successor", ok, ins, ins.node,
               f"link writes are {sorted(w4)}", how="exact set of (receiver, field, value) link stores; successor captured first",
               construct="splice link writes")
+    # the successor is read from the anchor only after a present value was unlinked: when the value being moved is the
+    # anchor's current successor, a successor captured earlier is the value's own erased box
+    if on and rm:
+        rm_if = getattr(getattr(rm[0], "_parent", None), "_parent", None)
+        tn = [n for n in cfg.node_of(rm_if) if n.kind == "test"] if isinstance(rm_if, ast.If) else []
+        ok2 = bool(tn) and cfg.dominates(tn[0], cfg.node_of(on[0])[0])
+        ctx.check(rule, "_insert_one_after: the anchor's successor is captured after the present value was removed", ok2, ins, on[0],
+                  f"`{norm(on[0])}` runs before the value is unlinked from its old position: if the value is the anchor's own successor, the new "
+                  "box is chained to its erased box and the real successor keeps a stale prev link (reverse iteration, indexing from the "
+                  "end and later removals go wrong)",
+                  how="the remove-if-present test dominates the read of <anchor>.next", construct="successor captured before the removal")
 
 
 def rule_r4(ctx):
